@@ -33,6 +33,10 @@ var props = []*common.Prop{
 		Gen:    func(r *simrt.Rand, tier string, idx int) interface{} { return genOwnCase(r, tier, idx) },
 		Run:    runOwn,
 		Shrink: shrinkOwn},
+	{ID: "C20", New: func() interface{} { return &AllocCase{} },
+		Gen:    func(r *simrt.Rand, tier string, idx int) interface{} { return genAllocCase(r, tier) },
+		Run:    runAlloc,
+		Shrink: shrinkAlloc},
 	{ID: "C12", New: func() interface{} { return &RTCase{} },
 		Gen:    func(r *simrt.Rand, tier string, idx int) interface{} { return genRTCase(r, tier) },
 		Run:    func(t *testing.T, c interface{}, trace bool) *common.Outcome { return runRT(t, c, trace, "C12") },
